@@ -1,6 +1,8 @@
 package gosym
 
 import (
+	"sync/atomic"
+	"time"
 	"fmt"
 	"strings"
 
@@ -496,6 +498,9 @@ func (in *Interp) reportViolation(kind, what, site string, model map[string]any)
 		v.Path = append(v.Path, in.prefix[i].choice)
 	}
 	in.violations = append(in.violations, v)
+	if in.cfg.ViolAt != nil {
+		atomic.CompareAndSwapInt64(in.cfg.ViolAt, 0, time.Now().UnixNano())
+	}
 	if in.cfg.Verbose {
 		stack := ""
 		for _, f := range in.curFn {
